@@ -41,10 +41,11 @@ theorem namespace_in_class (env : Env) (loc : LocRef) (doxygen : Option String) 
 
 /-- a closer that does not match the innermost open bracket (neither being `>`) is an error -/
 theorem mismatched_closer (st : List CTok × List String) (tok : CTok) (e : String) (stack : List String)
-    (hend : isBalancedEnd tok.type = true) (hst : st.2 = e :: stack) (hne : tok.type ≠ e) (h1 : tok.type ≠ ">") (h2 : e ≠ ">") :
+    (hend : isBalancedEnd tok.type = true) (hst : st.2 = e :: stack) (hne : tok.type ≠ e) (h1 : tok.type ≠ ">") (h2 : e ≠ ">")
+    (hnf : fusedClosers tok.type e stack = false) :
     balStep st tok = .error (unexpectedErr tok e) := by
   unfold balStep
-  simp [hend, hst, hne, h1, h2]
+  simp [hend, hst, hne, h1, h2, hnf]
 
 /-- a closer with nothing open is an error as well -/
 theorem closer_nothing_open (st : List CTok × List String) (tok : CTok)
@@ -99,7 +100,7 @@ theorem concept_in_class (env : Env) (F : Nat) (doxygen : Option String) (templa
             cases r3 with
             | error e => simp only [h3, Prod.mk.injEq] at h; exact ⟨e, h.2.symm⟩
             | ok toks =>
-              obtain ⟨_, _, _, _, _, s3, _, _⟩ := consumeValueUntil_contiguous env _ F [] w2 w3 toks h3
+              obtain ⟨_, _, _, _, _, _, s3, _, _, _⟩ := consumeValueUntil_contiguous env _ F [] w2 w3 toks h3
               have hst : w3.stack = blk :: rest := by rw [s3.stack, s2.stack, s1.stack]; exact hstack
               simp only [h3, interp_getTop env w3 blk rest hst, hk, ↓reduceIte] at h
               unfold cxxError at h
